@@ -49,7 +49,41 @@ MkCapture(par) ==
   IN [ts |-> <<Tm("main", "", <<>>, main)>>, globals |-> NoVarsMap,
       runs |-> <<RunR("main", NoVarsMap, "D")>>, tag |-> "capture|" \o kind \o "|" \o form \o "|" \o asg]
 
-MkC(par) == IF par[1] = "path" THEN MkPath(par) ELSE MkCapture(par)
+\* names resolve in this execution only: the program (without a top-level :=, so that no deferred restore
+\* surrounds the construct) runs with Execute variables and fails inside the construct, then runs again
+\* without them
+ResReads(pfx) == << P(pfx \o "p", Var("p")), P(pfx \o "g", Var("g")), P(pfx \o "is", IsSetE("s")),
+                    P(pfx \o "i1", IsSetE("x1")), P(pfx \o "i2", IsSetE("x2")), P(pfx \o "i3", IsSetE("x3")),
+                    P(pfx \o "ik", IsSetE("k")), P(pfx \o "iv", IsSetE("v")), P(pfx \o "iq", IsSetE("q1")), P(pfx \o "ctx", Ctx) >>
+MkResidue(par) ==
+  LET path == par[2]  f == par[3]
+      foc  == IF f = "fail" THEN <<T("f0"), SetS("fs", "r", Lit("z")), T("f1")>> ELSE <<T("f0")>> \o ResReads("f")
+      r    == Build(path, 1, foc)
+      main == <<T("pre")>> \o ResReads("a") \o r.main \o ResReads("z") \o <<T("post")>>
+      lib  == Tm("lib", "", <<>>, r.bl)
+      vm1  == [NoVarsMap EXCEPT !["p"] = "vmP", !["q1"] = "vmq1", !["x3"] = "vmx3"]
+  IN [ts |-> <<Tm("main", "", <<"lib">>, main), lib>> \o r.ts, globals |-> GL,
+      runs |-> <<RunR("main", vm1, "D"), RunR("main", NoVarsMap, "D2"), RunR("main", vm1, "D")>>,
+      tag |-> "residue|" \o PathTag(path) \o "|" \o f]
+
+\* a loop variable copied into an outer variable is a value, not a view of the ranger's cursor: the copy made in
+\* one iteration still holds that iteration's key / value in the next one and after the loop.  Maps of two
+\* entries, in both iteration orders (Go picks one at random; the harness repeats until it sees this one)
+MkMapAlias(par) ==
+  LET ord  == par[2]  asg == par[3]
+      els  == IF ord = "ab" THEN <<"m1", "m2">> ELSE <<"m2", "m1">>
+      pre  == IF asg = "=" THEN <<LetS("lk", "k", Lit("k0")), LetS("lv", "v", Lit("v0"))>> ELSE <<>>
+      body == <<SetS("c1", "x1", Var("s")), SetS("c2", "s", Var("k")), SetS("c3", "x2", Var("x3")), SetS("c4", "x3", Var("v")),
+                P("b1", Var("x1")), P("b2", Var("s")), P("b3", Var("x2")), P("b4", Var("x3"))>>
+      main == <<T("pre"), LetS("ls", "s", Lit("s0")), LetS("l1", "x1", Lit("x0")), LetS("l2", "x2", Lit("y0")), LetS("l3", "x3", Lit("w0"))>> \o pre \o
+              <<RangeS("rg", "kv", "k", "v", asg, ListE("map", els), body)>> \o
+              <<P("z1", Var("x1")), P("z2", Var("s")), P("z3", Var("x2")), P("z4", Var("x3")), T("post")>>
+  IN [ts |-> <<Tm("main", "", <<>>, main)>>, globals |-> NoVarsMap,
+      runs |-> <<RunR("main", NoVarsMap, "D")>>, tag |-> "map2|" \o ord \o "|" \o asg]
+
+MkC(par) == IF par[1] = "mapalias" THEN MkMapAlias(par) ELSE IF par[1] = "path" THEN MkPath(par) ELSE IF par[1] = "residue" THEN MkResidue(par) ELSE MkCapture(par)
 cParams == ({"path"} \X PathsUpTo(Kinds, Depth) \X Focals)
+           \cup ({"residue"} \X PathsUpTo(Kinds, 1) \X {"fail", "ok"})
            \cup ({"capture"} \X RKinds \X {"none", "k", "kv"} \X {":=", "="})
+           \cup ({"mapalias"} \X {"ab", "ba"} \X {":=", "="})
 =============================================================================
